@@ -13,13 +13,17 @@ EXTENDS Integers, Sequences, TLC, Json
 CONSTANT RecordHist
 BinaryOps == {"add", "sub", "mul", "truediv", "floordiv", "mod", "divmod", "pow", "lshift", "rshift", "and", "or", "xor", "matmul",
               "lt", "le", "eq", "ne", "gt", "ge"}
-UnaryOps == {"neg", "pos", "abs", "invert", "round", "trunc", "floor", "ceil"}
+UnaryOps == {"neg", "pos", "abs", "invert", "round", "trunc", "floor", "ceil",
+             "round0", "round1", "roundneg"}        \* round(x, 0), round(x, 1), round(x, -1): __round__ with ndigits
+\* operators that take a third operand: pow(x, y, 5)
+TernaryOps == {"pow3"}
 Forms == {"rx_const", "const_rx", "rx_rx"}
-Operands == {"i0", "i3", "ineg", "f25", "true", "mat"}       \* 0, 3, -2, 2.5, True, an object with __matmul__/__rmatmul__
+Operands == {"i0", "i3", "ineg", "f25", "f1234", "true", "mat"}       \* 0, 3, -2, 2.5, 12.34, True, an object with __matmul__/__rmatmul__
 VARIABLES op, form, x, y, x2
 vars == <<op, form, x, y, x2>>
 Init == \/ /\ op \in BinaryOps /\ form \in Forms /\ x \in Operands /\ y \in Operands /\ x2 \in Operands /\ x2 # x
            /\ (op = "matmul" <=> ("mat" \in {x, y, x2}))
+        \/ /\ op \in TernaryOps /\ form \in {"rx_const", "rx_rx"} /\ x \in Operands \ {"mat"} /\ y \in Operands \ {"mat"} /\ x2 \in Operands \ {"mat"} /\ x2 # x
         \/ /\ op \in UnaryOps /\ form = "unary" /\ x \in Operands \ {"mat"} /\ y = "i0" /\ x2 \in Operands \ {"mat"} /\ x2 # x
 Next == UNCHANGED vars
 Spec == Init /\ [][Next]_vars
